@@ -47,11 +47,10 @@ def validate(ctx, module, cfg, traces, *, label, nstates=None, jvms=8, workers=2
             if not r.ok:
                 raise tlc.TLCError(f"trace spec {module} did not consume batch at {off}: "
                                    f"{r.invariant_violated}\n{r.out[-3000:]}")
-            for line in r.out.splitlines():
-                m = re.match(r'<<"VERDICT", (\d+), "(.*?)", "(.*?)", (-?\d+)>>', line.strip())
-                if m:
-                    verdicts.append({"index": off + int(m.group(1)) - 1, "prop": m.group(2),
-                                     "impl": m.group(3), "pos": int(m.group(4))})
+            # TLC wraps long tuples over several lines: match over the whole output
+            for m in re.finditer(r'<<\s*"VERDICT",\s*(\d+),\s*"(.*?)",\s*"(.*?)",\s*(-?\d+)\s*>>', r.out, re.S):
+                verdicts.append({"index": off + int(m.group(1)) - 1, "prop": "".join(m.group(2).split()) if "\n" in m.group(2) else m.group(2),
+                                 "impl": m.group(3), "pos": int(m.group(4))})
     ctx.traces(n)
     # PrintT also fires while TLC evaluates ENABLED: keep one verdict per trace
     # (trace specs that explore several schedules of one trace print several: a property verdict wins)
